@@ -51,7 +51,7 @@ Lemma tact_ok_phase : forall a, tact_ok a = true -> phase_act_ok a = true.
 Proof. intros []; simpl; auto. Qed.
 
 Definition addq (c : cst) (n : nat) : cst :=
-  mkC (ckind c) (cq c + n) (ceof c) (cpopen c) (csht c) (cflag c) (cadded c) (cregok c) (cclosed c) (coff c).
+  mkC (ckind c) (cq c + n) (ceof c) (cpopen c) (csht c) (cflag c) (cadded c) (cregok c) (cclosed c) (coff c) (crst c).
 Lemma addq_0 : forall c, addq c 0 = c.
 Proof. intros []. unfold addq. simpl. rewrite Nat.add_0_r. auto. Qed.
 Lemma addq_addq : forall c a b, addq (addq c a) b = addq c (a + b).
@@ -64,10 +64,10 @@ Definition act1 (a : action) (c : cst) : cst :=
   match a with
   | AWrite _ k => if can_write c then addq c k else c
   | AHclose _ => if cpopen c && negb (ceof c)
-                 then mkC (ckind c) (cq c) true (negb (is_pipe c)) (csht c) (cflag c) (cadded c) (cregok c) (cclosed c) (coff c)
+                 then mkC (ckind c) (cq c) true (negb (is_pipe c)) (csht c) (cflag c) (cadded c) (cregok c) (cclosed c) (coff c) (crst c)
                  else c
   | APclose _ => if cpopen c
-                 then mkC (ckind c) (cq c) true false (csht c) (cflag c) (cadded c) (cregok c) (cclosed c) (coff c)
+                 then mkC (ckind c) (cq c) true false (csht c) (cflag c) (cadded c) (cregok c) (cclosed c) (coff c) (crst c)
                  else c
   | _ => c
   end.
@@ -442,7 +442,7 @@ Proof.
   assert (TA : targets_any y (tact t) = match tact t with AWrite z _ => Nat.eqb z y | _ => false end).
   { unfold targets_any. rewrite Ht. auto. }
   rewrite TA. unfold act_writes_to.
-  destruct (tact t) as [z k| | | | | |]; simpl; auto.
+  destruct (tact t) as [z k| | | | | | |]; simpl; auto.
   destruct (Nat.eqb z y); simpl; rewrite IH; auto.
 Qed.
 
